@@ -31,7 +31,8 @@ def hsNames : List (String × Msg) :=
 def insNames : List (String × Msg) :=
   [("ccs", .ccs), ("badccs", .badCcs), ("appdata", .appData), ("warn", .warningAlert), ("fatal", .fatalAlert),
    ("closenotify", .closeNotify), ("badalert", .badAlert), ("empty", .emptyHandshake), ("unkrec", .unknownRecord),
-   ("bigrec", .oversizedRecord), ("bigmsg", .oversizedMsg), ("frag", .fragment), ("malformed", .malformed)]
+   ("bigrec", .oversizedRecord), ("bigmsg", .oversizedMsg), ("frag", .fragment), ("malformed", .malformed),
+   ("badvers", .wrongVersionRecord)]
 
 def parseEdit (e : String) : Option Edit :=
   match e.splitOn ":" with
@@ -146,22 +147,34 @@ def structural (es : List Edit) (i : Nat) : String :=
   | none => ""
 
 /-- the events of one flight; the flag tells that the script ended the stream -/
-def flightEvents (es : List Edit) : List (Nat × Msg) → List PE × Bool
+def flightEvents (es : List Edit) (staleHello : Bool) : List (Nat × Msg) → List PE × Bool
   | [] => ([], false)
   | (i, m) :: rest =>
     let ins := insEvents es i
     match structural es i with
     | "eof" => (ins, true)
-    | "drop" => let (r, c) := flightEvents es rest; (ins ++ r, c)
-    | "dup" => let (r, c) := flightEvents es rest; (ins ++ itemEvents es i m ++ itemEvents es i m ++ r, c)
+    | "drop" => let (r, c) := flightEvents es staleHello rest; (ins ++ r, c)
+    | "dup" =>
+      let (r, c) := flightEvents es staleHello rest
+      -- a TLS client writes its hello in records of version 0x0301; the copy reaches a server that has since
+      -- fixed the connection's version
+      let second := if staleHello ∧ m = .clientHello then [⟨.wrongVersionRecord, false⟩] else itemEvents es i m
+      (ins ++ itemEvents es i m ++ second ++ r, c)
     | "swap" =>
       match rest with
       | [] => (ins, false)            -- held for an item that never comes
       | (j, m2) :: rest' =>
         if structural es j = "eof" then (ins ++ insEvents es j, true) else
-        let (r, c) := flightEvents es rest'
+        let (r, c) := flightEvents es staleHello rest'
         (ins ++ insEvents es j ++ itemEvents es j m2 ++ itemEvents es i m ++ r, c)
-    | _ => let (r, c) := flightEvents es rest; (ins ++ itemEvents es i m ++ r, c)
+    | _ => let (r, c) := flightEvents es staleHello rest; (ins ++ itemEvents es i m ++ r, c)
+
+/-- what becomes of an event when E's reading direction is under the new keys and the record is not: the checks
+    on the record header (end of stream, size, version) come first, then decryption fails -/
+def unprotected (m : Msg) : Msg :=
+  if m = .eof ∨ m = .oversizedRecord ∨ m = .wrongVersionRecord then m
+  else if m = .ccs ∨ m = .badCcs ∨ m = .appData ∨ m = .unknownRecord then .badRecordOther
+  else .badRecord
 
 /-- Cipher state of E's reading direction: before E has been shown a ChangeCipherSpec a protected record is
     noise in a handshake record; after the first one, only the genuine protected record that immediately follows
@@ -172,7 +185,7 @@ def cipherPass : Option Nat → List PE → List Msg
     if pe.m = .ccs then .ccs :: cipherPass (some 0) r
     else (if pe.prot then Msg.malformed else pe.m) :: cipherPass none r
   | some n, pe :: r =>
-    (if pe.m = .eof then Msg.eof else if n = 0 ∧ pe.prot then pe.m else .badRecord) :: cipherPass (some (n + 1)) r
+    (if n = 0 ∧ pe.prot then pe.m else unprotected pe.m) :: cipherPass (some (n + 1)) r
 
 def number (flights : List (List Msg)) : List (List (Nat × Msg)) :=
   let rec go (k : Nat) : List (List Msg) → List (List (Nat × Msg))
@@ -199,7 +212,7 @@ def streamGo (c : Cfg) (es : List Edit) : List PE → List Msg → Nat → List 
        | _, _ => false)
     if !answered then acc else
     let tainted := !hon.isEmpty && es.any (fun e => taints e && e.idx < start)
-    let (evs, closed) := flightEvents es f
+    let (evs, closed) := flightEvents es (c.server && !c.gm) f
     let evs' : List PE :=
       if tainted then
         (if !c.server && !c.resume then [⟨.fatalAlert, false⟩]
